@@ -9,6 +9,8 @@ BlPersist.tla  Set/Remove/SetBatch/RemoveBatch = MutateAndSnapshot ; persist ste
                crash points: TLC exhaustive; every edge of the 2-writer state graphs and
                simulated 3-writer schedules are forced on the real goroutines through the
                persist gate hook; recorded executions are validated by Trace_BlPersist.tla.
+BlRefresh.tla  the surroundings of a persist: New()'s background refresh at every point of it (also between
+               CreateTemp and Rename), the directory, the loader, I/O faults after CreateTemp (checks/x18f.py).
 Stress         free-running concurrent API traffic (real HTTP API when it can listen),
                end state must satisfy Converged.
 """
@@ -18,6 +20,7 @@ import random
 import re
 
 import vf
+import x18f
 import x18q
 
 SHAPES = [
@@ -189,6 +192,10 @@ def persist_schedules(ctx, model, scheds, tag, validate=True):
             "reload_dropped_subsumed": c.get("reload_dropped_subsumed", 0),
             "tainted_retries": c.get("tainted_retries", 0),
             "drift": res["drift"], "drift_notes": res.get("drift_notes", [])}
+    # X18F (checks/x18f.py): the real refresh timer waited for, injected I/O faults
+    for k in ("refresh_steps", "fault_vanish", "fault_write", "fault_left_file_behind_memory"):
+        if c.get(k):
+            info[k] = c[k]
     if not res.get("violations") and (c.get("steps", 0) == 0 or res["cases"] == 0):
         raise vf.MachineryError("persist schedule replay was vacuous: %s" % c)
     if not validate:
@@ -501,6 +508,9 @@ def run(ctx, replay):
     persist(ctx, thorough)
     refresh_stage(ctx, thorough)
     fresh_stage(ctx, thorough)
+    # what the surroundings do to a persist in flight (BlRefresh.tla: the refresh of the running instance between
+    # CreateTemp and Rename, I/O faults after CreateTemp): checks/x18f.py
+    x18f.run_tier(ctx)
     # writers really waiting on saveMu (BlQueue.tla): which waiter gets the lock is the code's choice
     x18q.run_tier(ctx)
     stress(ctx, thorough)
